@@ -500,11 +500,20 @@ def native_sweep(budget, only=None):
                 fails.append(f["obligation"])
         return n, fails
 
+    base = {}
+    bp = os.environ.get("VERIF_SWEEP_BASELINE")
+    if bp and os.path.exists(bp):
+        base = json.load(open(bp))
+    allf = {}
     with cf.ThreadPoolExecutor(max_workers=WORKERS) as ex:
         for n, fails in ex.map(one, names):
             if fails:
-                hits[n] = fails
-                print(f"{n}: {fails}")
+                allf[n] = sorted(set(fails))
+                new = [f for f in allf[n] if f not in base.get(n, [])]
+                if new:
+                    hits[n] = new
+                    print(f"{n}: {new}")
+    print("SWEEP-MAP " + json.dumps(allf))
     print("SWEEP-HITS " + json.dumps(sorted(hits)))
     return 1 if hits else 0
 
